@@ -18,8 +18,7 @@ META = {
     "level_note": "Trusted: Lean kernel; the emulation of the device scheduler in harness/emu_launch.hpp (for each work-group, for each "
                   "work-item; index types as on the real backends) — the host side (occa::dim, setRunDims, run, isNoop) is the real "
                   "library; g++ as the reference semantics of C expressions; C arithmetic overflow is outside the property. "
-                  "`long` iterators reaching negative values on CUDA/HIP/Metal are a recorded finding (F72), direction-inconsistent "
-                  "headers (F70) likewise.",
+                  "`long` iterators reaching negative values on CUDA/HIP/Metal are a recorded finding (F72).",
     "design_ref": "DESIGN.md section 4, C17",
 }
 
@@ -125,7 +124,7 @@ CORPUS = [
     ("K 9007 p;outer@0;int;c0;lt;R;vN;preinc;-;- o;outer@1;int;c0;lt;R;vM;preinc;-;- " + I_SIMPLE, [V(N=3, M=5), V(N=4, M=1)]),
     # F72: `long` iterator going negative on 32-bit-unsigned thread indices
     ("K 9008 o;outer;long;va;lt;R;c3;preinc;-;- " + I_SIMPLE, [V(a=-4), V(a=1)]),
-    # F70: comparison and update disagree; the translators accept the header and launch `bound - init` threads
+    # F70 (fixed): comparison and update disagree; the header is rejected by every translator since the fix
     ("K 9009 o;outer;int;c0;gt;R;vN;preinc;-;- " + I_SIMPLE, [V(N=5)]),
     # non-multiples of the step, inclusive comparisons, operand on the left
     ("K 9010 o;outer;int;vN;ge;R;neg,va;subeq;+,vs,c1;- i;inner;int;va;ge;L;vb;addeq;vt;-",
@@ -137,12 +136,7 @@ def corpus_cases():
     out = []
     for op, vals in CORPUS:
         kid, loops = loops_from_op(op)
-        c = Case(kid, loops, vals)
-        # F70 replay: today the translators accept the header (the execution oracle then reports the known finding);
-        # once a direction guard lands in the oklForStatement ctor (ag-okl's F70 patch) they reject it and there is
-        # nothing to run.  Both are fine; the text model (which has no such guard) is not compared for this entry.
-        c.text_exempt = (kid == 9009)
-        out.append(c)
+        out.append(Case(kid, loops, vals))
     return out
 
 
@@ -156,7 +150,7 @@ def main(argv):
                "an evaluation = one (kernel, value tuple, backend) run; non-trivial = the sequential loop nest is non-empty; "
                "distinct by SHA-1 of header text + values")
     ck.assumptions = ["operand values stay far from int overflow", "steps are positive at run time (else the sequential loop does not terminate)",
-                      "comparison and update direction agree (else: finding F70)"]
+                      "comparison and update direction agree (other headers are rejected by the translators since fix F70)"]
     ck.trusted += ["harness/emu_launch.hpp (device scheduler emulation: for each work-group, for each work-item; index types of the real backends)",
                    "g++ 12 as the reference semantics of the emitted C++ text and of the native sequential loop",
                    "the C expression grammar of OccaProofs/Lemmas/ExprGrammar.lean is unambiguous (not proved)"]
